@@ -700,5 +700,6 @@ if __name__ == '__main__':
     hs = {p: run_history for p in ("C01", "C02", "C03", "C05", "C09", "C18", "REC")}
     hs["C04"] = run_c04
     hs["C05"] = run_c04
+    hs["C09"] = run_c04
     hs["C17"] = run_c17
     main(hs)
